@@ -1222,6 +1222,9 @@ class Interp:
                 walk(c, v, 0)
             elif isinstance(v, Trace):
                 items.append((c, repr(v)))
+            elif self.track_content and isinstance(v, (Iter, Seq)) and is_listed(v.items):
+                # lists known element by element: paths that built different lists stay apart
+                items.append((c, "listed:" + repr(v.items)))
         return tuple(sorted(items))
 
     def join_values(self, a, b, sa, sb, phis, name):
